@@ -1275,6 +1275,24 @@ class FD:
             for t in st.targets:
                 self.assign(t, v, env)
             return
+        if isinstance(st, (ast.ImportFrom, ast.Import)):
+            # a function-local import: pedal's own names are looked up in their module; a few pure stdlib functions
+            # are modelled by themselves (applied to concrete operands only)
+            for a in st.names:
+                bound = a.asname or a.name.split('.')[0]
+                target = st.module if isinstance(st, ast.ImportFrom) else a.name
+                if isinstance(st, ast.ImportFrom) and self.sym is not None and target in self.sym.repo.modules:
+                    ref = ModRef(self.sym.repo.modules[target])
+                    env[bound] = self.modref_attr(ref, a.name)
+                elif isinstance(st, ast.Import) and self.sym is not None and target in self.sym.repo.modules:
+                    env[bound] = ModRef(self.sym.repo.modules[target])
+                elif isinstance(st, ast.ImportFrom) and (target, a.name) in _PURE_STDLIB:
+                    env[bound] = _pure(_PURE_STDLIB[(target, a.name)], '%s.%s' % (target, a.name))
+                elif isinstance(st, ast.ImportFrom) and ('%s.%s' % (target, a.name)) in self.calls:
+                    env[bound] = self._callable_value('%s.%s' % (target, a.name))
+                else:
+                    raise Inconclusive('fdeval: local import of %s' % ast.unparse(st))
+            return
         if isinstance(st, ast.AnnAssign):
             # `name: Type = value` is an assignment (the annotation is not evaluated); a bare annotation binds nothing
             if st.value is None:
@@ -1579,6 +1597,33 @@ _BUILTIN_TYPES = {'int': int, 'float': float, 'str': str, 'bool': bool, 'list': 
                   'dict': dict, 'set': set, 'frozenset': frozenset, 'complex': complex, 'bytes': bytes, 'Ellipsis': Ellipsis}
 
 
+def _b_type(x):
+    if isinstance(x, (Obj, Opaque)) or x is UNKNOWN:
+        raise Inconclusive('fdeval: type() of a model object')
+    return type(x)
+
+
+def _pure(f, name):
+    def call(*a, **k):
+        if any(isinstance(x, (Obj, Opaque)) or x is UNKNOWN for x in list(a) + list(k.values())):
+            raise Inconclusive('fdeval: %s on a non-concrete operand' % name)
+        try:
+            return f(*a, **k)
+        except RecursionError:
+            raise Raised('RecursionError', name)
+        except MemoryError:
+            raise Raised('MemoryError', name)
+        except Exception as ex:
+            raise Raised(type(ex).__name__, str(ex))
+    call._fd_callable = True
+    return call
+
+
+_PURE_STDLIB = {('ast', 'literal_eval'): ast.literal_eval, ('math', 'isnan'): __import__('math').isnan,
+                ('math', 'isinf'): __import__('math').isinf, ('math', 'isfinite'): __import__('math').isfinite,
+                ('itertools', 'zip_longest'): lambda *a, **k: list(__import__('itertools').zip_longest(*a, **k))}
+
+
 class ModRef:
     """A pedal module used as a value (`from pedal.sandbox import mocked`; mocked.X is looked up in that module)."""
 
@@ -1712,6 +1757,7 @@ _BUILTINS = {
     'int': lambda x: UNKNOWN if x is UNKNOWN else int(x),
     'float': lambda x: UNKNOWN if x is UNKNOWN else float(x),
     'id': lambda x: id(x),      # identity of a model object is its Python identity
+    'type': lambda x: _b_type(x),
     'repr': lambda x: UNKNOWN if (x is UNKNOWN or x is ERR or isinstance(x, (Opaque, Obj))) else repr(x),
 }
 
